@@ -480,7 +480,7 @@ func mutate(rg *rng, src string) (string, string) {
 				}
 			}
 		case 6: // unused declaration
-			return insertAt(rg, src, rg.pick([]string{"counter zz_unused", "gauge zz_unused by k", "text zz_unused", "const ZZ_UNUSED /zz/"})), rg.pick([]string{"unused"})
+			return insertAt(rg, src, rg.pick([]string{"counter zz_unused", "gauge zz_unused by k", "text zz_unused", "const ZZ_UNUSED /zz/", "hidden counter zz_unused", "hidden gauge zz_unused by k", "hidden text zz_unused", "hidden histogram zz_unused buckets 1, 2", "timer zz_unused"})), rg.pick([]string{"unused"})
 		case 7:
 			return insertAt(rg, src, rg.pick([]string{"/(/ {\n}", "/[a-/ {\n}", "/a{2,1}/ {\n}", "/x**/ {\n}"})), "regexInvalid"
 		case 8:
@@ -554,16 +554,20 @@ func init() {
 						if strings.TrimSpace(l) == "next" {
 							ind := l[:len(l)-len(strings.TrimLeft(l, " \t"))]
 							for _, at := range []int{i, i + 1} {
-								var m []string
-								m = append(m, ls[:at]...)
-								m = append(m, ind+"counter zz_unused")
-								m = append(m, ls[at:]...)
-								g.emit(c24Case("unused:var", strings.Join(m, "\n"))...)
+								for _, decl := range []string{"counter zz_unused", "hidden gauge zz_unused"} {
+									var m []string
+									m = append(m, ls[:at]...)
+									m = append(m, ind+decl)
+									m = append(m, ls[at:]...)
+									g.emit(c24Case("unused:var", strings.Join(m, "\n"))...)
+								}
 							}
 							break
 						}
 					}
 				}
+				// a hidden metric nobody uses is unused like any other
+				g.emit(c24Case("unused:var", "hidden counter zz_unused\n"+b)...)
 				for k := 0; k < nMut; k++ {
 					m, cls := mutate(g.r, b)
 					if m == "" {
